@@ -239,11 +239,11 @@
   (def envmode (in params 5))
   (def pre (drive f before))
   (def rtf (if (in item 4) rt-cf rt-plain))
-  (def st0 (fiber/status f))
+  (def st0 (string (fiber/status f) " " (canon (fiber/last-value f))))
   (def c1 (rtf f))
   (def c2 (rtf f))
   (def pair (rtf [f f]))
-  (def st1 (string (fiber/status c1) (if (= (in pair 0) (in pair 1)) "" "!unshared")))
+  (def st1 (string (fiber/status c1) " " (canon (fiber/last-value c1)) (if (= (in pair 0) (in pair 1)) "" "!unshared")))
   (def lo (drive f after))
   (def l1 (drive c1 after))
   # the second copy is driven with other values first: copies are independent of each other
@@ -465,6 +465,31 @@
   (def b (draw c))
   (string a "\t" b "\t" (draw c) "\t" (draw r) "\t" (type c) (= (in pair 0) (in pair 1))))
 
+(defn- weak-table [kind]
+  (case kind :normal @{} :k (table/weak-keys 4) :v (table/weak-values 4) :kv (table/weak 4)))
+
+(defn- fill-weak [t]
+  # one entry with a collectable key, one with a collectable value, one with neither
+  (put t @[:key] :kw-value)
+  (put t :kw-key @[:value])
+  (put t :plain 1)
+  t)
+
+(defn- survivors [t]
+  (string (if (table/rawget t :kw-key) "value-kept " "value-gone ")
+          (if (some array? (keys t)) "key-kept " "key-gone ")
+          (if (table/rawget t :plain) "plain" "plain-gone")))
+
+(defn do-weak [item]
+  # [:weak kind proto-kind | nil]: after a collection a copy of a weak table loses exactly the
+  # entries its kind allows to be collected (the copy's keys and values are referenced by it alone)
+  (def [_ kind pkind] item)
+  (def t (fill-weak (weak-table kind)))
+  (when pkind (table/setproto t (fill-weak (weak-table pkind))))
+  (def c (rt-plain t))
+  (gccollect)
+  (string (survivors c) (if pkind (string " / " (survivors (table/getproto c))) "")))
+
 (defn handle [item]
   (case (in item 0)
     :clo (do-clo item)
@@ -478,6 +503,7 @@
     :chan (do-chan item)
     :peg (do-peg item)
     :rng (do-rng item)
+    :weak (do-weak item)
     (errorf "unknown item %p" item)))
 
 # REPLAY-CUT (everything above is pasted into stand-alone replay files)
